@@ -2,6 +2,7 @@ extern crate iceoryx2_bb_loggers;
 mod common;
 mod c01_pubsub;
 mod c11_reqres;
+mod c14_reloc;
 mod c18_ffi;
 mod c20_waitset;
 mod c15_alloc;
@@ -32,7 +33,23 @@ fn main() {
     let args = parse_args(&argv[2..]);
     macro_rules! go {
         ($gen:path, $mk:expr) => {{
-            let cases = if args.mode == "replay" { read_cases_from_stdin() } else { $gen(&args) };
+            let mut cases = if args.mode == "replay" { read_cases_from_stdin() } else { $gen(&args) };
+            if args.mode != "replay" && args.rest.iter().any(|x| x == "reloc") {
+                // C14: only the cases whose container lives in a relocatable block, with relocations of
+                // the block at arbitrary points of the history (after every op in exhaustive mode)
+                let mut rng = Rng::new(args.seed ^ 0x14);
+                cases.retain(|c| c.first().map(|l| l.split(' ').nth(1) == Some("reloc")).unwrap_or(false));
+                for c in cases.iter_mut() {
+                    let mut out = vec![];
+                    for (i, l) in c.iter().enumerate() {
+                        out.push(l.clone());
+                        if i > 0 && (args.exhaustive > 0 || rng.chance(30)) {
+                            out.push("reloc".to_string());
+                        }
+                    }
+                    *c = out;
+                }
+            }
             run_cases(&$mk, &cases);
         }};
     }
@@ -41,6 +58,7 @@ fn main() {
         "reqres" => go!(c11_reqres::generate, || c11_reqres::ReqResComp::new()),
         "waitset" => go!(c20_waitset::generate, || c20_waitset::WaitSetComp::new()),
         "ffi" => go!(c18_ffi::generate, || c18_ffi::FfiComp::new()),
+        "relptr" => go!(c14_reloc::generate, || c14_reloc::RelPtrComp::new()),
         "alloc" => go!(c15_alloc::generate, || c15_alloc::AllocComp::new()),
         "names" => go!(c19_names::generate, || c19_names::NamesComp::new()),
         "vec" => go!(c16_vec::generate, || c16_vec::VecComp::new()),
